@@ -50,10 +50,10 @@ PROPS = {
         ],
     ),
     'C02': dict(
-        verus=['converter', 'filters', 'overlay', 'versatiles_stream', 'mbtiles_pyramid'],
+        verus=['converter', 'filters', 'overlay', 'versatiles_stream', 'mbtiles_pyramid', 'default_stream'],
         kani=['tile_bbox_iter'],
         not_decided=[
-            'container readers (the base case): the versatiles chunk grouping is under contract (unit versatiles_stream), the MBTiles box query equals the lookups relative to the SQL snippet table (unit mbtiles_pyramid); the selection of index entries of the versatiles stream (iterator chain), its range reads and slicing, PMTiles/tar/directory default lookup loops are not',
+            'container readers (the base case): the versatiles chunk grouping is under contract (unit versatiles_stream), the MBTiles box query equals the lookups relative to the SQL snippet table (unit mbtiles_pyramid); the selection of index entries of the versatiles stream (iterator chain), its range reads and slicing are not; the default stream (PMTiles, tar, directory, pipeline reader) is under contract per coordinate (unit default_stream: item = lookup of that coordinate), its enumeration of the box (iter_coords: bounded Kani law in tile_bbox_iter) and the buffered-futures combinator from_coord_vec_async are not',
             'overlay: the split of a request into iter_bbox_grid(32) cells and the concatenation of the cell streams (the per-cell stream is under contract); merge stream paths',
             'multiplicity (each tile once): streams are modelled as finite maps',
         ],
@@ -100,7 +100,7 @@ PROPS = {
         kani=['pmtiles_codec', 'versatiles_codec', 'pmtiles_runs'],
         not_decided=[
             'MBTiles zoom gaps (SQL), ./-prefixed tar members (string code)',
-            'reader descent through root + leaf directories (async, cache)',
+            'PMTiles reader: opening (header + root directory reads) and the async/cache plumbing of the descent (the descent itself is under contract: pmtiles_reader::get_tile_data = pm_lookup)',
         ],
     ),
     'C19': dict(
